@@ -1,3 +1,3 @@
 INIT Init
 NEXT Next
-INVARIANTS C06_Bound C06_Spacing C06_Identical C06_StopAfter C06_Success C06_SuccessRespOnly C06_NoFalseSuccess C06_NoFalseSuccessEnd C06_FailedWriteSilent C06_SweepReturns
+INVARIANTS C06_Bound C06_Spacing C06_Identical C06_StopAfter C06_Success C06_SuccessRespOnly C06_NoFalseSuccess C06_NoFalseSuccessEnd C06_FailedWriteSilent C06_FailedCopyKeepsExchange C06_SweepReturns
